@@ -20,7 +20,8 @@ The attribute section is executed a second time on the cursor-level model (`Mode
 bytes of the write buffer, failing writes that leave a part behind (worst case: every free byte),
 explicit rewind positions, the list index of `send_array_items`, loops with fuel); the reports that
 start in the bytes of each message it sends, and the message lengths, must be those of the messages
-just compared with the implementation (`cursorCheck`, verdict `DIS cursor …`).
+just compared with the implementation (`cursorCheck`, verdict `DIS cursor …`).  This is a consistency
+check of the two models (provably redundant: `cursor_attr_section`), not a tie to the code.
 
 The event queue itself is modelled too (`Model/ChunkEvents.lean`): from the pushed events (priority,
 length of the event in the queue = report length − `KR`) the model predicts which events survive
@@ -574,6 +575,7 @@ def step (st : St) (line : String) : St × String :=
           else if status = "hang" && mtext = itext && (ms.getLast?.map (·.more)).getD false then (st, "ok")
           else (st, s!"DIS ok | {mtext}")
         | .error .loops => (st, "DIS loops")
+        | .error .overflow => (st, "DIS overflow")   -- cursor level only: never an outcome of the size-level model
         -- the device gives up: a request gets no (complete) answer, a report is not sent
         | .error .noSpace => if status = "hang" || (o.report && status.startsWith "none:") then (st, "ok") else (st, "DIS nospace")
         | .error .tooBig => if status = "hang" || (o.report && status.startsWith "none:") then (st, "ok") else (st, "DIS toobig")
